@@ -229,14 +229,14 @@ impl Sys {
                 }
                 ServerSessionEvent::PublishStreamRequested { request_id, app_name, stream_key, .. } => {
                     if app_name != self.expected_app() || stream_key != self.sc.key {
-                        self.errors.push(format!("publish requested as {:?}/{:?}, client asked for {:?}/{:?}", app_name, stream_key, self.sc.app, self.sc.key));
+                        self.errors.push(format!("publish requested as {:?}/{:?}, expected {:?}/{:?}", app_name, stream_key, self.expected_app(), self.sc.key));
                     }
                     let o = self.s.step(&SAct::Accept { id: request_id });
                     self.server_obs(o, "accept_request(publish)");
                 }
                 ServerSessionEvent::PlayStreamRequested { request_id, app_name, stream_key, stream_id, .. } => {
                     if app_name != self.expected_app() || stream_key != self.sc.key {
-                        self.errors.push(format!("play requested as {:?}/{:?}, client asked for {:?}/{:?}", app_name, stream_key, self.sc.app, self.sc.key));
+                        self.errors.push(format!("play requested as {:?}/{:?}, expected {:?}/{:?}", app_name, stream_key, self.expected_app(), self.sc.key));
                     }
                     let o = self.s.step(&SAct::Accept { id: request_id });
                     self.server_obs(o, "accept_request(play)");
